@@ -19,14 +19,14 @@ WMAX = 8
 def leg_a(ctx):
     runs = [
         # (label, constants, invariants, properties)
-        ('W3L2-live', dict(W=3, L=2, DECLS={1, 2, 3}, MAXN=3, BARE=False, CLOSEDEL=False), SAFETY, LIVE),
-        ('W2L3-live', dict(W=2, L=3, DECLS={2, 3, 4}, MAXN=4, BARE=False, CLOSEDEL=False), SAFETY, LIVE),
-        ('W2L2-bare-closedel', dict(W=2, L=2, DECLS={1, 2, 3}, MAXN=3, BARE=True, CLOSEDEL=True), SAFETY[:4], ['VerifiedStable']),
+        ('W3L2-live', dict(W=3, L=2, DECLS={1, 2, 3}, MAXN=3, BARE=False, CLOSEDEL=False, LATE=True), SAFETY, LIVE),
+        ('W2L3-live', dict(W=2, L=3, DECLS={2, 3, 4}, MAXN=4, BARE=False, CLOSEDEL=False, LATE=True), SAFETY, LIVE),
+        ('W2L2-bare-closedel', dict(W=2, L=2, DECLS={1, 2, 3}, MAXN=3, BARE=True, CLOSEDEL=True, LATE=False), SAFETY[:4], ['VerifiedStable']),
     ]
     if ctx.thorough:
         runs += [
-            ('W3L3-live', dict(W=3, L=3, DECLS={2, 3, 4}, MAXN=4, BARE=False, CLOSEDEL=False), SAFETY, LIVE),
-            ('W3L2-bare-closedel', dict(W=3, L=2, DECLS={2, 3}, MAXN=3, BARE=True, CLOSEDEL=True), SAFETY[:4], ['VerifiedStable']),
+            ('W3L3-live', dict(W=3, L=3, DECLS={2, 3, 4}, MAXN=4, BARE=False, CLOSEDEL=False, LATE=True), SAFETY, LIVE),
+            ('W3L2-bare-closedel', dict(W=3, L=2, DECLS={2, 3}, MAXN=3, BARE=True, CLOSEDEL=True, LATE=False), SAFETY[:4], ['VerifiedStable']),
         ]
     for label, consts, invs, props in runs:
         res = tlc.run('BlobWrite', tlc.make_cfg(constants=consts, invariants=invs, properties=props), ctx,
@@ -36,7 +36,7 @@ def leg_a(ctx):
             ctx.violation('model:' + res.violated[0], f'model property {res.violated[0]} violated ({label})', res.error_trace[:6000])
             return
         tlc.require_coverage(res, ['GetWriterGuarded', 'Write', 'RunHead', 'ExecDone'], f'BlobWrite-{label}')
-    small = dict(W=2, L=2, DECLS={1, 2, 3}, MAXN=3, BARE=False, CLOSEDEL=False)
+    small = dict(W=2, L=2, DECLS={1, 2, 3}, MAXN=3, BARE=False, CLOSEDEL=False, LATE=True)
     for w in WITNESSES:
         r = tlc.run('BlobWrite', tlc.make_cfg(constants=small, invariants=[w]), ctx, coverage=False, timeout=600, label=w, workers=4)
         if w not in r.violated:
@@ -68,8 +68,10 @@ class Scenario:
         r = rng.random()
         self.decl = self.L if r < 0.8 else rng.choice([max(1, self.L - 1), self.L + 1])
         self.completed = 0
+        # a third of the blobs are created without a length (requested by hash); it is announced through set_length() later
+        self.late = rng.random() < 0.33 or k % 40 == 7
         with self.loop:
-            self.blob = BlobFile(self.loop, self.hash, self.decl * self.U, self._completed, self.dir)
+            self.blob = BlobFile(self.loop, self.hash, None if self.late else self.decl * self.U, self._completed, self.dir)
         self.writers = {}
         self.nwriters = rng.choice([1, 2, 2, 3, 3])
         self.plans = {w: self._plan(w) for w in range(1, self.nwriters + 1)}
@@ -168,8 +170,16 @@ class Scenario:
         rng.shuffle(unopened)
         chaos = rng.random() < 0.12
         budget = 400
+        announce_at = rng.randrange(0, 6) if self.late else None
         while budget > 0:
             budget -= 1
+            if announce_at is not None:
+                if announce_at == 0:
+                    self.blob.set_length(self.decl * self.U)
+                    self.log('SetLength', len=self.decl)
+                    announce_at = None
+                else:
+                    announce_at -= 1
             acts = []
             if unopened:
                 acts += ['open'] * 3
@@ -210,7 +220,7 @@ class Scenario:
             self.escaped = [str(c.get('exception') or c.get('message')) for c in self.loop.exceptions]
         else:
             self.escaped = []
-        return {'L': self.L, 'decl': self.decl, 'ev': self.evs}
+        return {'L': self.L, 'decl': 0 if self.late else self.decl, 'ev': self.evs}
 
     def cleanup(self):
         try:
